@@ -1,7 +1,8 @@
 // lib/stream_chunks.rs -- C09: independence of the chunking, proved over write_spec (which SummaryStream::write is proved
 // equal to, call by call).  For a well-formed stream (records, each followed by a blank line) every partition into
 // successive writes succeeds call by call and ends in the same state as one write of the whole stream.
-// UTF-8 facts about a cut INSIDE a multi-byte character are one axiom (axiom_mid_char); everything else is proved.
+// UTF-8 facts about a cut INSIDE a multi-byte character are proved from vstd::utf8 (lemma_mid_char); the one axiom left is the
+// meaning of Utf8Error::error_len() == None (axiom_incomplete_char).
 
 pub open spec fn at(cs: Seq<char>, j: int) -> bool { 0 <= j && j + 2 <= cs.len() && cs[j] == '\n' && cs[j + 1] == '\n' }
 pub proof fn lemma_at(cs: Seq<char>, j: int)
@@ -260,14 +261,109 @@ pub proof fn lemma_boff_sub(t: Seq<char>, a: int, b: int, n: int)
     assert(t.subrange(a, b).take(n) =~= t.subrange(a, a + n));
     lemma_enc_sub(t, a, a + n);
 }
-/// ASSUMED (UTF-8 + the meaning of Utf8Error::error_len() == None): a prefix of a valid UTF-8 stream that is cut inside a
-/// multi-byte character is not valid UTF-8, its longest valid prefix ends at the previous character boundary, and the
-/// remaining bytes are reported as an incomplete (not an invalid) sequence
-pub axiom fn axiom_mid_char(t: Seq<char>, a: int, c: int, q: int)
+/// a non-empty strict prefix of one character's encoding is not valid UTF-8 (from the definition of valid_utf8)
+pub proof fn lemma_char_prefix_invalid(ch: char, r: int)
+    requires 1 <= r < encode_utf8(seq![ch]).len()
+    ensures !valid_utf8(encode_utf8(seq![ch]).take(r))
+{
+    encode_utf8_first_scalar(seq![ch]);
+    assert(seq![ch].skip(1) =~= Seq::<char>::empty());
+    lemma_encode_empty();
+    encode_utf8_valid_utf8(seq![ch]);
+}
+/// the bytes of a valid stream from character a up to a cut INSIDE character c: characters a..c, then a strict prefix of c
+pub proof fn lemma_mid_shape(t: Seq<char>, a: int, c: int, q: int)
+    requires 0 <= a <= c < t.len(), boff(t, c) < q < boff(t, c + 1)
+    ensures ({
+        let x = encode_utf8(t.subrange(a, c));
+        let g = encode_utf8(seq![t[c]]);
+        let r = q - boff(t, c);
+        &&& 1 <= r < g.len()
+        &&& encode_utf8(t).subrange(boff(t, a), q) == x + g.take(r)
+        &&& x.len() == boff(t, c) - boff(t, a)
+        &&& boff(t, a) <= boff(t, c) && q <= encode_utf8(t).len()
+    })
+{
+    let s = encode_utf8(t);
+    lemma_enc_sub(t, a, c);
+    lemma_enc_sub(t, c, c + 1);
+    assert(t.subrange(c, c + 1) =~= seq![t[c]]);
+    let x = encode_utf8(t.subrange(a, c));
+    let g = encode_utf8(seq![t[c]]);
+    let r = q - boff(t, c);
+    assert(s.subrange(boff(t, a), q) =~= s.subrange(boff(t, a), boff(t, c)) + s.subrange(boff(t, c), boff(t, c + 1)).take(r));
+}
+pub proof fn lemma_mid_invalid(t: Seq<char>, a: int, c: int, q: int)
+    requires 0 <= a <= c < t.len(), boff(t, c) < q < boff(t, c + 1)
+    ensures !valid_utf8(encode_utf8(t).subrange(boff(t, a), q))
+{
+    let s = encode_utf8(t);
+    lemma_mid_shape(t, a, c, q);
+    let x = encode_utf8(t.subrange(a, c));
+    let g = encode_utf8(seq![t[c]]);
+    let r = q - boff(t, c);
+    let f = g.take(r);
+    let p = s.subrange(boff(t, a), q);
+    let i = x.len() as int;
+    if valid_utf8(p) {
+        // the cut between x and f is at a leading byte, hence a character boundary of p, hence f alone would be valid
+        encode_utf8_valid_utf8(t);
+        lemma_boundary(t, c);
+        is_char_boundary_iff_is_leading_byte(s, boff(t, c));
+        is_char_boundary_iff_is_leading_byte(p, i);
+        assert(p[i] == s[boff(t, c)]);
+        valid_utf8_split(p, i);
+        assert(p.subrange(i, p.len() as int) =~= f);
+        lemma_char_prefix_invalid(t[c], r);
+    }
+}
+/// ... and its longest valid prefix ends at the previous character boundary
+pub proof fn lemma_mid_mvp_upto(t: Seq<char>, a: int, c: int, q: int, u: int)
+    requires 0 <= a <= c < t.len(), boff(t, c) < q < boff(t, c + 1), boff(t, c) - boff(t, a) <= u <= q - boff(t, a)
+    ensures mvp_upto(encode_utf8(t).subrange(boff(t, a), q), u) == boff(t, c) - boff(t, a)
+    decreases u
+{
+    let s = encode_utf8(t);
+    let o = boff(t, a);
+    let p = s.subrange(o, q);
+    lemma_mid_shape(t, a, c, q);
+    let i = boff(t, c) - o;
+    if u == i {
+        lemma_enc_sub(t, a, c);
+        assert(p.take(i) =~= s.subrange(o, boff(t, c)));
+        encode_utf8_valid_utf8(t.subrange(a, c));
+        if i == 0 { }
+    } else {
+        lemma_mid_invalid(t, a, c, o + u);
+        assert(p.take(u) =~= s.subrange(o, o + u));
+        lemma_mid_mvp_upto(t, a, c, q, u - 1);
+    }
+}
+
+/// ASSUMED (the meaning of Utf8Error::error_len() == None, std documentation: "the end of the input was reached unexpectedly ...
+/// a char is split across chunks"): a non-empty strict prefix of one character's encoding is reported as an incomplete sequence
+pub axiom fn axiom_incomplete_char(ch: char, r: int)
+    requires 1 <= r < encode_utf8(seq![ch]).len()
+    ensures tail_incomplete(encode_utf8(seq![ch]).take(r));
+/// a prefix of a valid UTF-8 stream that is cut inside a multi-byte character is not valid UTF-8, its longest valid prefix ends at
+/// the previous character boundary (both PROVED from vstd::utf8), and the remaining bytes are an incomplete sequence (the axiom above)
+pub proof fn lemma_mid_char(t: Seq<char>, a: int, c: int, q: int)
     requires 0 <= a <= c < t.len(), boff(t, c) < q < boff(t, c + 1)
     ensures !valid_utf8(encode_utf8(t).subrange(boff(t, a), q)),
         mvp(encode_utf8(t).subrange(boff(t, a), q)) == boff(t, c) - boff(t, a),
-        tail_incomplete(encode_utf8(t).subrange(boff(t, c), q));
+        tail_incomplete(encode_utf8(t).subrange(boff(t, c), q)),
+{
+    lemma_mid_invalid(t, a, c, q);
+    lemma_mid_shape(t, a, c, q);
+    lemma_mid_mvp_upto(t, a, c, q, q - boff(t, a));
+    lemma_mid_shape(t, c, c, q);
+    assert(t.subrange(c, c) =~= Seq::<char>::empty());
+    lemma_encode_empty();
+    let g = encode_utf8(seq![t[c]]);
+    let r = q - boff(t, c);
+    assert(encode_utf8(t).subrange(boff(t, c), q) =~= g.take(r));
+    axiom_incomplete_char(t[c], r);
+}
 pub proof fn lemma_usable(t: Seq<char>, a: int, q: int)
     requires 0 <= a <= cw(t, q), 0 <= q <= encode_utf8(t).len()
     ensures ({
@@ -290,7 +386,7 @@ pub proof fn lemma_usable(t: Seq<char>, a: int, q: int)
     } else {
         lemma_boff_full(t);
         assert(c < t.len());
-        axiom_mid_char(t, a, c, q);
+        lemma_mid_char(t, a, c, q);
         assert(sg.skip(boff(t, c) - o) =~= s.subrange(boff(t, c), q));
     }
 }
